@@ -159,6 +159,16 @@ def run_cases(res: Result, rng: random.Random, n_msgs: int, n_random: int, fails
         add(f"MSGDEC {b.hex()} {rng.choice('01')}")
         add(f"AVPDEC {b.hex()}")
         add(f"AVPSTR {b.hex()}")
+    # every prefix of single AVPs and AVP pairs with unaligned payloads (cuts inside header, payload and padding)
+    for plen in (1, 2, 3, 5, 6, 7, 9):
+        for vend in (0, 10415):
+            one = gen.rfc_wire(rng.choice([1, 25, 263, 999999]), vend, 0xC0 if vend else 0x40, gen.rand_bytes(rng, plen))
+            two = one + gen.rfc_wire(25, 0, 0x40, gen.rand_bytes(rng, plen + 1))
+            for w in (one, two):
+                for cut in range(0, len(w) + 1):
+                    add(f"AVPDEC {w[:cut].hex()}")
+                    if cut > len(w) - 4:
+                        add(f"AVPVAL 4 {w[:cut].hex()}")        # as the payload of a grouped AVP
     # position never beyond the buffer
     for l, r in zip(d.lines, d.real):
         if l.startswith("AVPDEC") and not r.startswith("EXC"):
